@@ -22,8 +22,10 @@ FLAGS = ["", "+m:", "+p:", "+mp:", "+pm:"]
 
 NAVS5 = ["a", "b", "~a", "'n'~a", "'n m'~b"]
 NAVS3 = ["a", "~b", '"n m"~a']
+# fixed names that need care when printed: a quote of the other kind, an escaped quote, the empty name
+NAVSQ = ["a", '"q\'r"~a', "'q\"r'~b", "'q\\'r'~a", "''~b"]
 # (navigation alphabet, max atoms, max bracket depth) per tier; the union is enumerated
-SPACES = {"quick": [(NAVS5, 2, 1)], "thorough": [(NAVS5, 2, 2), (NAVS3, 3, 1)]}
+SPACES = {"quick": [(NAVS5, 2, 1), (NAVSQ, 2, 1)], "thorough": [(NAVS5, 2, 2), (NAVS3, 3, 1), (NAVSQ, 2, 1)]}
 _NAV = [NAVS5]
 
 
